@@ -1,8 +1,45 @@
 CHECK = dict(
     level='model_checking',
     parts=[dict(name='c20', src=['harness/c20_mlog.c'], workers=16,
+                # strdup_printf (used by mlog_get_line) and xmalloc come from the real librfn sources, compiled apart
                 objs=[('@REPO@/librfn/string.c', []), ('@REPO@/librfn/util.c', [])],
-                deadline=dict(quick=120, thorough=1500))],
-    rule='x', bounds=dict(quick='', thorough=''), assumptions=[],
+                deadline=dict(quick=300, thorough=2400))],
+    rule='vx_bfs over operation histories of the real mlog.c (static log reached by #include "mlog.c") against an unbounded-'
+         'list model (64-bit message count, no ring or fold arithmetic). 612 start states: message count P in '
+         '{0,1,254..258,510..514} built by P real mlog calls, and P = 2^31-1+j for j = -300..299 built by setting log.head = '
+         'P-300 and issuing 300 real mlog calls (ring content, slot alignment and the counter fold come from the real code). '
+         'From each start all sequences of <= D operations over {mlog with 0,1,2,3 arguments, mlog_nice, mlog_clear}; after '
+         'the start state and after every operation mlog_get_line(k) for k = -2..258 and 11 extreme k (INT_MIN..INT_MAX) '
+         'and the mlog_dump output are compared with the model. A state is distinct when (log.head, all 256 slots by format '
+         'and consumed arguments, model) differs; "distinct" counts distinct observation tuples (all returned lines + dump '
+         'text) with a hash set. Messages carry a global sequence number in their arguments, 0-argument messages one of 7 '
+         'texts.',
+    bounds=dict(quick='612 start states x all operation sequences of length <= 4',
+                thorough='612 start states x all operation sequences of length <= 6; plus one run of 2^31+600 real mlog '
+                         'calls from an empty log with no positioning, compared with the model after every call for counts '
+                         '<= 600 and >= 2^31-901 and every 2^26 calls, and required to produce, at each of the 600 '
+                         'positioned counts, the same log state and observations as the positioned construction'),
+    assumptions=['positioning shortcut: before the first fold log.head equals the number of messages logged, so writing '
+                 'P-300 into log.head reproduces a reachable counter value (premise and result are checked against 2^31+600 '
+                 'real calls in the thorough tier only; the quick tier relies on it)',
+                 'x86-64 calling convention (the three variadic arguments travel in registers), arguments are unsigned long, '
+                 'char* to constant strings, int and char; format strings are string literals',
+                 'message counts between 520 and 2^31-901 are visited only at multiples of 2^26 (thorough long run); the '
+                 'ring arithmetic depends on the count only through count mod 256 and its position relative to 256 and to '
+                 'the fold, all of which are covered',
+                 'reads (mlog_get_line, mlog_dump) are performed after every operation in a fixed order, not interleaved as '
+                 'separate operations of the search'],
 )
-CHECK.update(technique='x', level_text='x', level_note='x', design_ref='DESIGN.md section 4, C20')
+CHECK.update(
+    technique='explicit-state model checking: bounded-depth BFS over operation histories of the real mlog.c from 612 start '
+              'states (including both sides of the 2^31 counter fold) against an unbounded-list model, plus a 2^31+600 call '
+              'conformance run',
+    level_text='Every sequence of up to 4 (quick) / 6 (thorough) operations from {mlog x 0..3 arguments, mlog_nice, '
+               'mlog_clear} from each of 612 start states - message counts 0, 1, 254..258, 510..514 and every count within '
+               '300 of the 2^31-1 fold point - executed on the real mlog.c; after each operation all of mlog_get_line(-2..258 '
+               'and extreme k) and mlog_dump are compared with an unbounded list. Thorough additionally crosses the fold with '
+               '2^31+600 genuine calls and shows the positioned start states equal the genuinely reached ones.',
+    level_note='Depth-bounded (not a fixpoint). Trusted: the list model, the lazily generated bulk messages, and - in the '
+               'quick tier - the log.head positioning shortcut.',
+    design_ref='DESIGN.md section 4, C20',
+)
